@@ -644,11 +644,18 @@ func genConcPlan(r *rand.Rand, tier string) *vfPlan {
 				coldAdmin = true
 			}
 		}
+	case 6:
+		// the same WebAuthn assertion delivered twice (double submit, a retrying proxy)
+		p.Steps = append(p.Steps, vfStep{Op: "webauthn_begin", Sess: "a1"})
+		group = []vfStep{{Op: "webauthn_finish", Sess: "a1", Target: "tok1"}, {Op: "webauthn_finish", Sess: "a2", Target: "tok1", A: "sess:a1"}}
+		if chance(r, 0.4) {
+			group = append(group, vfStep{Op: pick(r, []string{"webauthn_begin", "webauthn_begin", "u2fsignreq"}), Sess: pick(r, []string{"a1", "a2"})})
+		}
 	case 2, 5:
 		// the same hardware-token assertion delivered twice
 		p.Steps = append(p.Steps, vfStep{Op: "u2fsignreq", Sess: "a1"})
 		group = []vfStep{{Op: "u2fsignresp", Sess: "a1", Target: "tok1"}, {Op: "u2fsignresp", Sess: "a2", Target: "tok1", A: "sess:a1"}}
-		if chance(r, 0.5) {
+		if chance(r, 0.65) {
 			// ... while the user also asks for a fresh challenge
 			group = append(group, vfStep{Op: pick(r, []string{"u2fsignreq", "u2fsignreq", "webauthn_begin"}), Sess: pick(r, []string{"a1", "a2"})})
 		}
@@ -752,7 +759,7 @@ func genConcPlan(r *rand.Rand, tier string) *vfPlan {
 	}
 	// the tape: random choices; the scheduler normalises it to the choices taken.  A few entries (>= 100) let
 	// simulated time pass at that decision: one request stalls for seconds in the middle while the other completes
-	oneTime := len(group) >= 2 && (group[0].Op == "totp" || group[0].Op == "bootstrapotp" || group[0].Op == "u2fsignresp") && group[0].Op == group[1].Op
+	oneTime := len(group) >= 2 && (group[0].Op == "totp" || group[0].Op == "bootstrapotp" || group[0].Op == "u2fsignresp" || group[0].Op == "webauthn_finish") && group[0].Op == group[1].Op
 	stall := oneTime && chance(r, 0.5)
 	for i := 0; i < 40; i++ {
 		v := r.IntN(6)
